@@ -54,7 +54,7 @@ class FileCache:
         """
         with open(os.path.join(self.root_path, file_name), 'rb') as file:
             contents, memory_usage = self.process_contents(file.read())
-        self.update_file_futures_and_memory(file_name, memory_usage=memory_usage)
+        self.update_file_futures_and_memory(file_name, memory_usage=memory_usage, loaded=True)
         return contents
 
     def _write_file(self, file_name, new_file_contents, use_fsync):
@@ -96,13 +96,14 @@ class FileCache:
         self.file_access_times = [(t, fn) for t, fn in self.file_access_times if fn != file_name]
         heapq.heappush(self.file_access_times, (time.time_ns(), file_name))
 
-    def update_file_futures_and_memory(self, file_name, memory_usage):
+    def update_file_futures_and_memory(self, file_name, memory_usage, loaded=False):
         """
         Updates the memory usage and file future for the specified file.
 
         Args:
         - file_name (str): the name of the file to update
         - memory_usage (int): the memory usage of the file
+        - loaded (bool): the caller is a load task, not the writer of the entry
 
         Returns:
         None
@@ -112,8 +113,9 @@ class FileCache:
             if not can_cache:
                 logging.warning(f"unable to recover memory for requsted file: {file_name} {memory_usage} {self.max_memory} {self.current_memory_usage}")
             info = self.file_futures.get(file_name)
-            if info is None:
-                # the entry was unloaded by another client while this task was pending: nothing to account
+            if info is None or (loaded and info[0]):
+                # the entry was unloaded by another client while this task was pending, or (for a load) a write of
+                # the file is pending and the entry belongs to that write: nothing to account
                 return
             if can_cache:
                 self.update_file_access_time(file_name)
